@@ -64,11 +64,19 @@ def parseN (s : String) : Nat := if s == "max" then usizeMax else natOf s
 
 def parseStrat (s : String) : Strategy := if s == "f" then .fuzzyPartialPrefix else .standard
 
-/-- result of the last operation of a history on a TrieBuf: only `add_phrase` can fail -/
-def lastResult (init : TrieBuf.State) (ops : List Op) : String :=
+/-- result of the last operation of a history (`runf` replays a prefix): only `add_phrase` can fail -/
+def lastResultWith (runf : List Op → TrieBuf.State) (ops : List Op) : String :=
   match ops.reverse with
-  | .add k t _ _ :: before => if TrieBuf.addOk (TrieBuf.run init before.reverse) k t then "ok" else "err"
+  | .add k t _ _ :: before => if TrieBuf.addOk (runf before.reverse) k t then "ok" else "err"
   | _ => "ok"
+
+def lastResult (init : TrieBuf.State) (ops : List Op) : String := lastResultWith (TrieBuf.run init) ops
+
+/-- … on a `Layered`: an operation that is not forwarded to the user layer answers `Ok` -/
+def lastResultLayered (ops : List Op) : String :=
+  match ops.getLast? with
+  | some op => if Layered.forwarded op then lastResultWith (Layered.runUser TrieBuf.initMem) ops else "ok"
+  | none => "ok"
 
 /-- answer one query given the lookup / enumeration functions of the dictionary under test -/
 def answer (res : String) (lookup : Key → Nat → Strategy → List Phrase) (ents : Unit → List Entry) (q : String) : Option String :=
@@ -108,10 +116,10 @@ def layeredRecord (args : List String) : Option String := do
   let ops ← allSome (hs.map parseOp)
   let a := TrieBuf.run TrieBuf.initMem aops
   let b := Trie.build bes
-  let u := TrieBuf.run TrieBuf.initMem ops
+  let u := Layered.runUser TrieBuf.initMem ops
   let layers : List Dict := [TrieBuf.toDict a, { lookup := fun k st => Trie.lookupFirstN b k usizeMax st }, TrieBuf.toDict u]
   -- `Layered::add_phrase` etc. forward to the user layer (and accept an empty phrase without doing anything)
-  answers (lastResult TrieBuf.initMem ops) (Layered.lookupFirstN layers)
+  answers (lastResultLayered ops) (Layered.lookupFirstN layers)
     (fun _ => Layered.entries [TrieBuf.entries a, Trie.entries b, TrieBuf.entries u]) qs
 
 /-- expected right-hand side of a `dict` record -/
